@@ -79,6 +79,15 @@ class Prop(PropBase):
                 else:
                     lines.append("H %d %d %d" % (r.randrange(6), r.randrange(6), r.randrange(6)))
             sets.append(lines)
+        # deterministic twin sets: two terminals that differ in unicode_in_all_charsets (and two that do not differ at all)
+        # write the same elements in step - every character set, into UTF-8 and back, then US-ASCII
+        for c1 in tg.CHARSETS:
+            def g(cs_, code):
+                return tg.fmt_el([cs_] + (tg.utf8_bytes(code) if cs_ == 18 else [code & 0x7F | 0x20, 0, 0]) + tg.DEFAULT_ATTR)
+            rest = " ; ".join(["we " + g(c1, 0x61), "we " + g(18, 0x20AC), "we " + g(c1, 0x62), "we " + g(5, 0x63), "we " + g(18, 0xE9),
+                               "we " + g(c1, 0x64)])
+            sets.append(["T 0 ; " + rest, "T 16 ; " + rest])
+            sets.append(["T 16 ; " + rest, "T 0 ; " + rest, "T 16 ; " + rest])
         # twin sets: the SAME operation sequence on 2-4 distinct objects that differ only in their configuration (or not
         # at all), so that identical calls with identical arguments alternate between objects - what a cache or scratch
         # buffer keyed on the arguments but not on the object/configuration would confuse
